@@ -262,6 +262,19 @@ def run(chk):
                'they are re-validated on every run')
 
 
+    # ---- L8: the constructor chain hands parent / traversal_parent up to Element.__init__
+    chk.rule('C11-L8', 'every element constructor passes the parent and the traversal parent it was given to its base constructor '
+                       '(a lazily created element that loses its traversal parent can never be promoted: the write is lost)')
+    elem_ = ix.cls('core.Element')
+
+    def is_ctor(fi_):
+        return fi_.cls is not None and elem_ in fi_.cls.mro and fi_.name == '__init__'
+    nctor = forwarding.check_forwarding(chk, c, 'C11-L8', ('traversal_parent', 'parent'),
+                                        only_callers=lambda fq_: is_ctor(ix.functions[fq_]), only_callees=is_ctor,
+                                        self_attrs=False, check_own=True)
+    chk.floor('constructor chain call sites (parent / traversal_parent)', nctor, 12)
+
+
 def _contains(stmt, node):
     for n in ast.walk(stmt):
         if n is node:
